@@ -191,8 +191,12 @@ def main():
         ],
         "checks": checks,
         "not_applicable": na,
-        "notes": "All checks are static analyses of /repo's working tree. Exit 0 held / 1 VIOLATION / 2 ANALYSIS-ERROR. "
-                 "Genuine defects found are repaired by fix: commits in /repo or listed in /verif/known_findings.txt.",
+        "notes": "All checks are static analyses of /repo's working tree (sansldap is never imported or executed). Exit 0 held / 1 VIOLATION / "
+                 "2 ANALYSIS-ERROR (the analysis could not classify a construct it needs; never a verdict). The rules are exhaustive over the code, so the "
+                 "thorough tier evaluates the same rules and additionally exercises the checker itself on every seeded variant under /verif/seeded (breaking "
+                 "variants it is recorded to report, behaviour-preserving variants it must stay silent on), each applied to a scratch copy of the current working "
+                 "tree; that self-test is written to the evidence and never changes the verdict. 16 genuine defects were repaired by fix: commits in /repo "
+                 "(6de8880..ec56877) and 2 are known findings pinned by tests; see /verif/known_findings.txt and DESIGN.md sections 0, 2 and 10.",
     }
     with open(os.path.join(VERIF, "MANIFEST.json"), "w") as f:
         json.dump(man, f, indent=1)
